@@ -81,7 +81,14 @@ func runStepConformance(c *Ctx, o stepConfOpts) {
 			workers[wi] = newWorker(bg)
 		}
 		w := workers[wi]
-		st := &stats[wi]
+		var stLocal stepConfStats
+		st := &stLocal
+		defer func() {
+			stats[wi].cases += st.cases
+			stats[wi].nontrivial += st.nontrivial
+			stats[wi].outcomes += st.outcomes
+			stats[wi].protos += st.protos
+		}()
 		seen := map[protoKey]struct{}{}
 		outs := newU64set(16)
 		var cs Case
